@@ -27,4 +27,10 @@ CHECKS = {
   "note": "Partial: deadlock-freedom theorems for the non-refuted configurations are _todo; AsyncBuffer/SyncIter/ParmapperAsync and process pools are not scheduled. Trusted as for C01. No axioms.",
   "design_ref": "DESIGN.md section 5 C05",
  },
+ "C03": {
+  "technique": "Coq proofs (induction over the element list for each operator transducer, Permutation for shuffle) + differential correspondence of the real Stream with the model + independent reference oracle",
+  "text": "Theorems for every element list and parameter: each operator's transducer (mirroring its generator) equals its documented list function (map, filter, firstn, last-n, chunking with partition characterisation, concat, consecutive grouping with partition characterisation, scan), first-failure position for map, head pulls <= n+1, shuffle is a permutation for every draw oracle, pipelines compose, first k outputs of inline one-to-one chains depend on the first k inputs only. Tie: random pipelines over a shared named-function library run on the real Stream (iteration/collect/drain; real threads for buffer/parmap) and on the model inside Coq; an independent reference implementation and pull-count oracles (construction pulls nothing; bounded look-ahead after k outputs) run on every case.",
+  "note": "Trusted: Coq kernel + vm_compute; hand-written transducers and the duplicated function library; itertools.groupby; buffer/parmap enter the model with their C01/C05 sequential behaviour (identity / in-order map) and are executed for real in the tie. buffer sizes 1-2 are excluded from generated pipelines (known finding C05-C hangs on early stop). No axioms.",
+  "design_ref": "DESIGN.md section 5 C03",
+ },
 }
